@@ -135,7 +135,8 @@ def run_case(case):
             stats["scheduler_decisions"] += rr.sched.steps
         if rr.loop is not None:
             stats["async_offloads"] += rr.loop.offloads
-        h.update(repr(got).encode())
+        h.update(repr(sorted(got) if iface == "tfdata" and sh else
+                      got).encode())
         stats["elements_streamed"] += len(got)
         probes["iface_" + iface] += 1
         if fp > nshards:
